@@ -18,7 +18,6 @@ Definition ex_deprecations : deprecations :=
 Example c20_hypotheses_hold :
   env ex_schema ex_doc = true /\ schema_loadable ex_schema = true /\
   excl_member_clash ex_schema ex_doc = false /\ decl_safe ex_schema ex_doc = true /\
-  names_no_dunder ex_schema ex_doc = true /\
   In ex_op_linked (d_ops ex_doc) /\ op_name ex_op_linked = Some (bs "Q") /\
   conforms ex_schema ex_op_linked ex_resp = true.
 Proof. repeat split; try (vm_compute; reflexivity). left. reflexivity. Qed.
@@ -29,10 +28,10 @@ Example c20_instance :
     exists n v, (forall fuel, (n <= fuel)%nat -> decode_op p fuel (bs "Q") (json_of ex_resp) = DOk v) /\
                 (forall pl, In pl (leaves v) <-> In pl (expected ex_schema ex_op_linked ex_resp)).
 Proof.
-  destruct c20_hypotheses_hold as (H1 & HL & H2 & H3 & Hnd & H4 & H5 & H6).
+  destruct c20_hypotheses_hold as (H1 & HL & H2 & H3 & H4 & H5 & H6).
   destruct (real_accepts_wf ex_deprecations ex_schema ex_doc H1 HL H2 H3) as [p [Hg Hw]].
   exists p. split; [exact Hg|]. split; [exact Hw|].
-  apply (real_s_decodes ex_deprecations ex_schema ex_doc H1 HL Hnd p ex_op_linked (bs "Q") ex_resp Hg H4 H5 H6).
+  apply (real_s_decodes ex_deprecations ex_schema ex_doc H1 HL p ex_op_linked (bs "Q") ex_resp Hg H4 H5 H6).
 Qed.
 
 (** the decoding theorem applies to a selection set WITH a member-name clash (K1: the response key
@@ -45,11 +44,10 @@ Example c20_instance_clash :
 Proof.
   assert (H1 : env ex_schema docK1 = true) by (vm_compute; reflexivity).
   assert (HL : schema_loadable ex_schema = true) by (vm_compute; reflexivity).
-  assert (Hnd : names_no_dunder ex_schema docK1 = true) by (vm_compute; reflexivity).
   split; [vm_compute; reflexivity|].
-  destruct (real_s_accepts ex_deprecations ex_schema docK1 H1 HL Hnd) as [p [Hg _]].
+  destruct (real_s_accepts ex_deprecations ex_schema docK1 H1 HL) as [p [Hg _]].
   exists p. split; [exact Hg|].
-  apply (real_s_decodes ex_deprecations ex_schema docK1 H1 HL Hnd p (hd opM (d_ops docK1)) (bs "K") respK1 Hg);
+  apply (real_s_decodes ex_deprecations ex_schema docK1 H1 HL p (hd opM (d_ops docK1)) (bs "K") respK1 Hg);
     [left; reflexivity | vm_compute; reflexivity | vm_compute; reflexivity].
 Qed.
 
